@@ -201,6 +201,12 @@ func callAdapter(a Adapter, args []string, timeout time.Duration) string {
 	}
 }
 
+// ExclusiveOps names the operations that change process-wide state (time.Local) while they run:
+// no other operation runs next to one of them.
+var ExclusiveOps = map[string]bool{}
+
+var exclusive sync.RWMutex
+
 func (p *Property) runImpl(ops []string) []string {
 	out := make([]string, len(ops))
 	var wg sync.WaitGroup
@@ -224,7 +230,15 @@ func (p *Property) runImpl(ops []string) []string {
 					out[i] = "no-adapter"
 					continue
 				}
-				out[i] = callAdapter(a, args, 20*time.Second)
+				if ExclusiveOps[op] {
+					exclusive.Lock()
+					out[i] = callAdapter(a, args, 20*time.Second)
+					exclusive.Unlock()
+				} else {
+					exclusive.RLock()
+					out[i] = callAdapter(a, args, 20*time.Second)
+					exclusive.RUnlock()
+				}
 				if out[i] == "hang" {
 					atomic.AddInt32(&hangs, 1)
 				}
